@@ -622,23 +622,13 @@ def simplify_boolean_expressions(source: str) -> str:
 
             continue
 
-        if isinstance(operator, ast.Eq):
-            yield node, ast.Constant(value=left == right, kind=None)
+        try:
+            # The comparison itself has no known value if the operands cannot be compared
+            value = core.literal_value(node)
+        except ValueError:
+            continue
 
-        elif isinstance(operator, ast.NotEq):
-            yield node, ast.Constant(value=left != right, kind=None)
-
-        elif isinstance(operator, ast.Gt):
-            yield node, ast.Constant(value=left > right, kind=None)
-
-        elif isinstance(operator, ast.Lt):
-            yield node, ast.Constant(value=left < right, kind=None)
-
-        elif isinstance(operator, ast.GtE):
-            yield node, ast.Constant(value=left >= right, kind=None)
-
-        elif isinstance(operator, ast.LtE):
-            yield node, ast.Constant(value=left <= right, kind=None)
+        yield node, ast.Constant(value=value, kind=None)
 
 
 @processing.fix
